@@ -501,7 +501,7 @@ fn exhaustive_shard(driver: &std::path::Path, cfgs: &[ExCfg], max_n: usize) -> S
     let mut drv = Driver::spawn(driver);
     let mut sh = Shard { evals: 0, model_evals: 0, branches: BTreeMap::new(), violations: vec![], nontrivial: vec![], completed: false };
     for ec in cfgs {
-        let cfg = Cfg { lt: ec.lt, inv: ec.inv, a: ec.a, b: ec.b, pt: ec.pt, ln: true, son: false, ml: false };
+        let cfg = Cfg { lt: ec.lt, inv: ec.inv, a: ec.a, b: ec.b, pt: ec.pt, ln: true, son: false, ml: false, bin: Bin::None };
         let (term, nm) = if !ec.fast {
             (None, None)
         } else if ec.lt == Lt::Nul {
